@@ -36,7 +36,7 @@ ASSUMPTIONS = [
     "the SQLAlchemy provider runs on in-memory sqlite (sqlite://) with ATTACH ':memory:' AS <schema>",
 ]
 
-TABLES = [("s1", "ta"), ("s1", "tb"), ("s2", "tc")]
+TABLES = [("s1", "ta"), ("s1", "tb"), ("s2", "tc"), ("s0", "ta")]  # the last one is never known to the provider: same bare name as TABLES[0], sorts before it
 TGT = ("s9", "tgt")
 COLSETS = {  # per table position: candidate column sets; overlap patterns are produced by combining them
     0: [["c1", "c2", "k"], ["c1", "k"]],
@@ -88,19 +88,26 @@ def templates():
         ("explicit_list_unknown_or_known_target", lambda: (ins(ir.Select((I(C(q(0), "c1")), I(C(q(0), "k"))), one), ("x1", "x2")), [0], {"explicit"})),
         ("positional_target", lambda: (ins(ir.Select((I(C(q(0), "c1")), I(C(q(0), "k"), "kk")), one)), [0], {"positional"})),
         ("positional_target_unq", lambda: (ins(ir.Select((I(C(None, "c1")), I(C(None, "d1"))), join2)), [0, 1], {"positional", "unq"})),
+        # an UNKNOWN table with the same bare name as a known one, in another schema (both aliased); two unqualified columns
+        ("unq_same_barename_unknown:insert", lambda: (ins(ir.Select((I(C(None, "c1")), I(C(None, "k"), "kk")), (ir.FromGroup(T(3, "x"), (ir.Join("JOIN", T(0, "y"), ("on", ir.Cmp(C("x", "k9"), "=", C("y", "c1")))),)),))), [0], {"unq"})),
+        ("unq_same_barename_unknown_comma:ctas", lambda: (ins(ir.Select((I(C(None, "c1")), I(C(None, "k"), "kk")), (ir.FromGroup(T(0, "y")), ir.FromGroup(T(3, "x")))), None, "ctas"), [0], {"unq"})),
+        # a constant between two columns: it occupies a position of the known target
+        ("positional_target_const", lambda: (ins(ir.Select((I(C(q(0), "c1")), I(ir.Lit("0")), I(C(q(0), "k"), "kk")), one)), [0], {"positional", "arity3"})),
         ("star_union:insert", lambda: (ins(ir.SetOp(("UNION ALL",), (ir.Select((I(ir.Star(None)),), one), ir.Select((I(ir.Star(None)),), (ir.FromGroup(T(1)),))))), [0, 1], {"star", "star_union"})),
     ]
     return out
 
 
 # INSERT without column list: target columns that are the select list's own names in ANOTHER order (positions must still win over names)
-PERMUTED_TARGET = {"positional_target": ["kk", "c1"], "positional_target_unq": ["d1", "c1"]}
+PERMUTED_TARGET = {"positional_target": ["kk", "c1"], "positional_target_unq": ["d1", "c1"], "positional_target_const": ["kk", "t2", "c1"]}
 
 
 def assignments(scope, with_target, name=None):
     """every knowledge assignment: per scope table None (unknown) or one of its column sets; target None or a 2-column set"""
     choices = [[None] + COLSETS[i] for i in scope]
     tgt_choices = [None, ["t1", "t2"]] if with_target else [None]
+    if with_target and name == "positional_target_const":
+        tgt_choices = [None, ["t1", "t2", "t3"]]
     if with_target and name in PERMUTED_TARGET:
         tgt_choices.append(PERMUTED_TARGET[name])
     for combo in itertools.product(*choices):
@@ -127,7 +134,7 @@ def in_domain(stmt, flags, md, scope):
         return False, "named_column_not_defined"
     if "explicit" in flags and "s9.tgt" in md:
         return False, "explicit_list_with_known_target(K-explicit-cols-meta)"
-    if "positional" in flags and "s9.tgt" in md and len(md["s9.tgt"]) != 2:
+    if "positional" in flags and "s9.tgt" in md and len(md["s9.tgt"]) != (3 if "arity3" in flags else 2):
         return False, "arity"
     if "star" in flags and "s9.tgt" in md and isinstance(stmt, ir.Insert):
         return False, "star_into_known_target"
@@ -258,7 +265,7 @@ def _random_worker(payload):
         stmt, scope, flags = build()
         md = {q(i): list(c) for i, c in zip(scope, cols) if c}
         if tg and isinstance(stmt, (ir.Insert, ir.Ctas)):
-            md["s9.tgt"] = PERMUTED_TARGET[name] if name in PERMUTED_TARGET and ti % 2 else ["t1", "t2"]
+            md["s9.tgt"] = PERMUTED_TARGET[name] if name in PERMUTED_TARGET and ti % 2 else (["t1", "t2", "t3"] if name == "positional_target_const" else ["t1", "t2"])
         return judge(stmt, name, scope, flags, md, res_, ctx, "random")
 
     colset = st.one_of(st.none(), st.lists(st.sampled_from(colpool), min_size=1, max_size=5, unique=True))
